@@ -1517,11 +1517,7 @@ func (c *RemoteClient) runConnection(ctx context.Context, conn net.Conn,
 
 	c.isConnected.Store(false)
 
-	sendsThread.Stop(ctx)
-	select {
-	case handshakeCompleteChannel <- nil: // ensure sendMessages is not waiting on the handshake
-	default:
-	}
+	sendsThread.Stop(ctx) // also ends the wait for the handshake in sendMessages
 	conn.Close()
 
 	wait.Wait()
@@ -1558,6 +1554,10 @@ func sendMessages(ctx context.Context, conn net.Conn,
 
 	select {
 	case <-handshakeComplete:
+	case <-interrupt:
+		// The connection is being shut down before its handshake completed. Nothing may be written
+		// to it, the messages wait for the next connection.
+		return firstMsg, nil
 	case <-time.After(timeout):
 		return firstMsg, errors.Wrap(ErrTimeout, "handshake")
 	}
